@@ -46,6 +46,7 @@ End Assoc.
 
 (* ------------------------------------------------------------------ lists as UniqueVec / BTreeSet *)
 Definition memz (x : Z) (l : list Z) : bool := existsb (Z.eqb x) l.
+Definition isnil {A} (l : list A) : bool := match l with [] => true | _ => false end.
 (* UniqueVec::push: append when absent; returns whether it was appended *)
 Definition upush (x : Z) (l : list Z) : list Z := if memz x l then l else l ++ [x].
 (* UniqueVec::swap_remove_if (|y| y == x): order abstracted *)
@@ -162,7 +163,8 @@ Section Ops.
     match alookup k (postings s) with
     | Some p =>
         let target := bid_of p in
-        if negb (allow_dup cfg) && negb (memz id (ids_of p)) then (Err AlreadyExists, s)
+        (* an emptied posting that a concurrent remove is about to drop has no owner *)
+        if negb (allow_dup cfg) && negb (isnil (ids_of p)) && negb (memz id (ids_of p)) then (Err AlreadyExists, s)
         else if memz id (ids_of p) then (Ok false, s)
         else
           let p' : posting := (target, ver_of p + 1, ids_of p ++ [id]) in
@@ -293,7 +295,7 @@ Section Ops.
 
   Definition conflicts (s : state) (id : pk) (k : key) : bool :=
     match alookup k (postings s) with
-    | Some p => negb (memz id (ids_of p))
+    | Some p => negb (isnil (ids_of p)) && negb (memz id (ids_of p))
     | None => false
     end.
 
